@@ -75,6 +75,9 @@ var vTransforms = []vTransform{
 	{Name: "tabs", Line: func(l string, _ int) string { return strings.ReplaceAll(l, " ", "\t") }},
 	{Name: "double-blanks", Line: func(l string, _ int) string { return strings.ReplaceAll(l, " ", "  ") }},
 	{Name: "indent+trailing", Line: func(l string, i int) string { return strings.Repeat(" ", 1+i%7) + l + " \t " }},
+	// amounts of white space beyond any plausible internal line or buffer size
+	{Name: "deep-indent", Line: func(l string, i int) string { return strings.Repeat(" ", 4093+i%9) + l }},
+	{Name: "deep-tabs+long-trailing", Line: func(l string, i int) string { return strings.Repeat("\t", 4200) + l + strings.Repeat(" ", 4090+i%13) }},
 	{Name: "slashes", Line: prefixer("// ")},
 	{Name: "hash", Line: prefixer("# ")},
 	{Name: "star", Line: prefixer(" * ")},
